@@ -95,7 +95,12 @@ impl Lift for PackedEncoding {
             let mut last_position = 0;
             for PackedSpan { offset, size, .. } in &spans {
                 spans_are_valid = spans_are_valid && last_position <= *offset;
-                last_position = offset + size;
+                // A span whose end cannot be represented does not fit in any word
+                let Some(end_position) = offset.checked_add(*size) else {
+                    spans_are_valid = false;
+                    break;
+                };
+                last_position = end_position;
             }
 
             // In order to prevent issues with inferring types for unused portions of a
